@@ -236,14 +236,23 @@ func (c *GenCase) expected(area string, caseDir string, firsts [][]string) *mode
 	owner := map[string]Plugin{}
 	for i, p := range c.Plugins {
 		abs := c.absOut(area, caseDir, p)
-		for _, f := range perPlugin[i] {
+		for fi, f := range perPlugin[i] {
 			if f.ip != "" {
 				continue
 			}
 			k := abs + "\x00" + f.name
 			if o, dup := owner[k]; dup && o.Opt != p.Opt {
 				key := "duplicate-path-accepted"
-				if filepath.Clean(o.Out) != filepath.Clean(p.Out) {
+				ownInsertionFirst := false
+				for _, g := range perPlugin[i][:fi] {
+					if g.ip != "" && g.name == f.name {
+						ownInsertionFirst = true
+					}
+				}
+				if ownInsertionFirst {
+					// the same response first inserts into that file (of the earlier plugin) and then emits the file itself
+					key += ":after-own-insertion-point"
+				} else if filepath.Clean(o.Out) != filepath.Clean(p.Out) {
 					// the same directory, once relative and once absolute
 					key += ":abs-vs-relative-out"
 				}
@@ -1094,8 +1103,43 @@ func genL2(t *rapid.T) *GenCase {
 			c.Plugins[i].Out = outKey(c.Plugins[i].Out)
 		}
 	}
+	// Open known finding duplicate-path-accepted:after-own-insertion-point: a response that lists an
+	// insertion-point entry for a name BEFORE a plain file of the same name, where an earlier plugin
+	// produces that name into the same out. The directed case runs every time; here the plain file is dropped.
+	for i := range c.Plugins {
+		p := &c.Plugins[i]
+		var keep []ScriptFile
+		claimed := map[string]bool{}
+		for _, f := range p.Files {
+			cn, ok := cleanName(f.Name)
+			if ok && f.InsertionPoint != "" {
+				claimed[cn] = true
+			}
+			if ok && f.InsertionPoint == "" && claimed[cn] {
+				earlier := false
+				for j := 0; j < i; j++ {
+					if outKey(c.Plugins[j].Out) != outKey(p.Out) {
+						continue
+					}
+					for _, g := range c.Plugins[j].Files {
+						if gn, gok := cleanName(g.Name); gok && gn == cn && g.InsertionPoint == "" {
+							earlier = true
+						}
+					}
+				}
+				if earlier {
+					evid.R().Excluded(knownAfterOwnInsertion)
+					continue
+				}
+			}
+			keep = append(keep, f)
+		}
+		p.Files = keep
+	}
 	return c
 }
+
+const knownAfterOwnInsertion = "duplicate-path-accepted:after-own-insertion-point"
 
 const knownAbsVsRel = "duplicate-path-accepted:abs-vs-relative-out"
 
@@ -1121,6 +1165,21 @@ func TestKnownFindings(t *testing.T) {
 	}
 	r.Class("directed-known-finding-regression")
 	runL2(context.Background(), t, r, c)
+	// duplicate-path-accepted:after-own-insertion-point
+	c2 := &GenCase{
+		Kind:    "l2",
+		Version: "v2",
+		Src:     c.Src,
+		Plugins: []Plugin{
+			{Opt: "p0", Out: "gen", Strategy: "all", Files: []ScriptFile{{Name: "f.txt", Content: "p0 version\n// @@protoc_insertion_point(scope)\n"}}},
+			{Opt: "p1", Out: "gen", Strategy: "all", Files: []ScriptFile{
+				{Name: "f.txt", Content: "by p1\n", InsertionPoint: "scope"},
+				{Name: "f.txt", Content: "p1 version\n"},
+			}},
+		},
+	}
+	r.Class("directed-known-finding-regression")
+	runL2(context.Background(), t, r, c2)
 }
 
 func TestGenerate(t *testing.T) {
